@@ -7,8 +7,8 @@
 //   * `split_char(s, c)` stands for `s.split(c)` (ONE @subst in the client) and returns the shim iterator
 //     `SplitChar`, whose inherent `collect()` yields the `Vec<&str>` of pieces;
 //   * `str::starts_with` keeps its real name for `char` patterns (assume_specification, generic over the
-//     undeclared `Pattern`); for a CLOSURE pattern `starts_with_char_fn(s, f)` stands for `s.starts_with(f)`
-//     (ONE @subst in the client; the closure itself stays verbatim and is verified).
+//     undeclared `Pattern`); for a CLOSURE pattern `s.starts_with_char_fn(f)` stands for `s.starts_with(f)`
+//     (ONE @subst of the method name in the client; receiver and closure stay verbatim, the closure is verified).
 // ASSUMED (statements about core::str only, from the std documentation):
 //   (S1) split + collect: "An iterator over substrings of this string slice, separated by characters matched
 //        by a pattern": the pieces are separator-free, there is at least one piece ("" splits into [""]), and
@@ -73,13 +73,20 @@ pub mod str_split_c27 {
     /// S2 for a `char` pattern
     pub broadcast axiom fn ax_pat_char(c: char, t: Seq<char>)
         ensures #[trigger] pat_prefix(c, t) == (t.len() > 0 && t[0] == c);
-    /// S2 for a closure pattern: stands for `s.starts_with(f)` (ONE @subst in the client). A broadcast axiom over the
-    /// closure type, which would let the real method name stay, does not fire inside trait-impl methods on this Verus.
-    #[verifier::external_body]
-    pub fn starts_with_char_fn<F: Fn(char) -> bool>(s: &str, f: F) -> (r: bool)
-        requires forall|c: char| f.requires((c,))
-        ensures s@.len() == 0 ==> !r, s@.len() > 0 ==> f.ensures((s@[0],), r)
-    { s.starts_with(f) }
+    /// S2 for a closure pattern: `s.starts_with_char_fn(f)` stands for `s.starts_with(f)` (ONE @subst of the method
+    /// name in the client). A broadcast axiom over the closure type, which would let the real method name stay,
+    /// does not fire inside trait-impl methods on this Verus.
+    pub trait StrStartsWithFn {
+        spec fn text_of(&self) -> Seq<char>;
+        fn starts_with_char_fn<F: Fn(char) -> bool>(&self, f: F) -> (r: bool)
+            requires forall|c: char| f.requires((c,))
+            ensures self.text_of().len() == 0 ==> !r, self.text_of().len() > 0 ==> f.ensures((self.text_of()[0],), r);
+    }
+    impl StrStartsWithFn for str {
+        open spec fn text_of(&self) -> Seq<char> { self@ }
+        #[verifier::external_body]
+        fn starts_with_char_fn<F: Fn(char) -> bool>(&self, f: F) -> (r: bool) { self.starts_with(f) }
+    }
 
     // ---- (S3) ----------------------------------------------------------------------------------------
     pub broadcast axiom fn ax_str_len_fits_usize(s: &str)
